@@ -42,7 +42,7 @@ func Check() *core.Check {
 		},
 		Cases: func(tier string) int {
 			if tier == "thorough" {
-				return 1000000
+				return 600000
 			}
 			return 40000
 		},
